@@ -320,15 +320,17 @@ def run(tier, seed, replay=None):
             continue
         res.violation({"property": "C03", "kind": "oracle-in-coq", "doc": d0, "document": J, "values": judged, "finding": "C03-K25" if homonyms(d0) else None,
                        "what": "the serialized document, read as Draft 6 (Spec6.v, documented deviations), does not accept exactly what the element accepts"})
-    codes2, err2 = sc.eval_codes(["Elem", "Validate", "SerJson", "RunSer", "RunSerCls"], "run_ser_case_c03", ser_cases, tag="c03s", shard=60)
+    codes2, err2 = sc.eval_codes(["Elem", "Validate", "SerJson", "RunSer", "DefsFrag", "RunSerCls"], "run_ser_case_c03", ser_cases, tag="c03s", shard=60)
     res.corr_error = err or err2
     # code 9 = the tree lies in the fragment of the meaning theorem C03_meaning (SerFrag.dslb, proved sound): there the
     # model document means what the model element means by theorem, so the implementation is tied by correspondence alone
     # code 10 = the tree has object classes and satisfies the premises of C03_meaning_classes (ClsFrag.cdslb / defs_okb, proved sound):
     # the document, with its references resolved in Coq, means what the tree means by theorem
-    stats["theorem_applies"] = {"trees": sum(1 for cs in (codes2 or {}).values() if 9 in cs or 10 in cs),
+    # code 12 = serialized WITH caller-supplied definitions and the premise of C03_meaning_definitions holds (DefsFrag.cd_okb, proved sound)
+    stats["theorem_applies"] = {"trees": sum(1 for cs in (codes2 or {}).values() if 9 in cs or 10 in cs or 12 in cs),
                                 "reference_free": sum(1 for cs in (codes2 or {}).values() if 9 in cs),
-                                "with_classes": sum(1 for cs in (codes2 or {}).values() if 10 in cs and 9 not in cs), "of": len(ser_cases)}
+                                "with_classes": sum(1 for cs in (codes2 or {}).values() if 10 in cs and 9 not in cs),
+                                "with_caller_definitions": sum(1 for cs in (codes2 or {}).values() if 12 in cs), "of": len(ser_cases)}
     res.corr_mismatches = [{"doc": ser_meta[i][0], "impl_document": ser_meta[i][1], "what": "SerJson.ser_doc differs from serialize_json's output"}
                            for i in sorted(codes2 or {}) if 1 in codes2[i]]
     res.witness_status = {"C03-K15": "fails" if stats["k15"] else "not-exercised"}
